@@ -24,6 +24,9 @@ use crate::{
 pub enum Sid {
     Valid(u32),
     LeadingZeros(u32),
+    /// a valid number with white space around it (xs:unsignedInt collapses it): 0 ` n `,
+    /// 1 line break and indentation on both sides, 2 a leading tab, 3 a trailing space
+    Padded(u32, u8),
     Zero,
     TooBig,
     Negative,
@@ -117,6 +120,12 @@ pub fn hello_tree(case: &Case) -> (X, Vec<String>) {
     let sid_elems: Vec<X> = match &case.sid {
         Sid::Valid(n) => vec![X::leaf(Ns::Base, "session-id", &n.to_string())],
         Sid::LeadingZeros(n) => vec![X::leaf(Ns::Base, "session-id", &format!("000{n}"))],
+        Sid::Padded(n, k) => vec![X::new(Ns::Base, "session-id").text(&match k % 4 {
+            0 => format!(" {n} "),
+            1 => format!("\n    {n}\n  "),
+            2 => format!("\t{n}"),
+            _ => format!("{n} "),
+        })],
         Sid::Zero => vec![X::leaf(Ns::Base, "session-id", "0")],
         Sid::TooBig => vec![X::leaf(Ns::Base, "session-id", "4294967296")],
         Sid::Negative => vec![X::leaf(Ns::Base, "session-id", "-5")],
@@ -217,7 +226,7 @@ fn expected(
         return Err("capabilities element missing or duplicated");
     }
     let sid = match &case.sid {
-        Sid::Valid(n) | Sid::LeadingZeros(n) => *n,
+        Sid::Valid(n) | Sid::LeadingZeros(n) | Sid::Padded(n, _) => *n,
         Sid::Zero => return Err("session-id 0"),
         Sid::TooBig | Sid::Negative | Sid::Empty | Sid::NonNumeric => {
             return Err("session-id not a 32-bit number")
@@ -240,6 +249,7 @@ pub fn sid_strategy() -> impl Strategy<Value = Sid> {
     prop_oneof![
         8 => prop_oneof![1u32..1000, Just(u32::MAX), any::<u32>().prop_map(|n| n.max(1))].prop_map(Sid::Valid),
         1 => (1u32..1000).prop_map(Sid::LeadingZeros),
+        1 => (prop_oneof![1u32..1000, Just(u32::MAX)], 0u8..4).prop_map(|(n, k)| Sid::Padded(n, k)),
         1 => Just(Sid::Zero),
         1 => Just(Sid::TooBig),
         1 => Just(Sid::Negative),
@@ -441,7 +451,7 @@ impl Prop for HelloMatrix {
         let defects = [
             case.malform != Malform::None,
             case.caps_elem != CapsElem::Once,
-            !matches!(case.sid, Sid::Valid(_) | Sid::LeadingZeros(_)),
+            !matches!(case.sid, Sid::Valid(_) | Sid::LeadingZeros(_) | Sid::Padded(..)),
             !(case.base10 || case.base11),
         ]
         .iter()
